@@ -1,9 +1,9 @@
 ---- MODULE PassLoop ----
 EXTENDS Naturals, Sequences, TLC, FiniteSets
 CONSTANTS MaxItems, Fixed   \* Fixed = TRUE models the repaired algorithm
-VARIABLES prog, pass, i, pc, sym, defd, repass, lastLab, lastVal, phase, pend
+VARIABLES prog, pass, i, pc, sym, defd, repass, lastLab, lastVal, phase, pend, orig
 
-vars == <<prog, pass, i, pc, sym, defd, repass, lastLab, lastVal, phase, pend>>
+vars == <<prog, pass, i, pc, sym, defd, repass, lastLab, lastVal, phase, pend, orig>>
 Items == {"def", "ref", "fill1", "padinstr"}
 \* one label "L"; programs = sequences with exactly one def
 Progs == UNION { [1..n -> Items] : n \in 1..MaxItems }
@@ -11,32 +11,30 @@ OneDef(p) == Cardinality({k \in DOMAIN p : p[k] = "def"}) = 1
 
 Init == /\ prog \in {p \in Progs : OneDef(p)}
         /\ pass = 1 /\ i = 1 /\ pc = 0 /\ sym = 0 /\ defd = FALSE /\ repass = FALSE
-        /\ lastLab = FALSE /\ lastVal = 0 /\ phase = "run" /\ pend = FALSE
+        /\ lastLab = FALSE /\ lastVal = 0 /\ phase = "run" /\ pend = FALSE /\ orig = 0
 
 \* enter label value v: SymbolAdder
-Enter(v) == IF pass > 1 /\ sym # v
-            THEN IF Fixed THEN pend' = TRUE /\ repass' = repass   \* defer decision
-                          ELSE pend' = pend /\ repass' = TRUE
-            ELSE pend' = pend /\ repass' = repass
+Enter(v) == /\ pend' = pend
+            /\ repass' = (repass \/ (pass > 1 /\ (IF Fixed THEN orig ELSE sym) # v))
 
 Step == /\ phase = "run" /\ i <= Len(prog)
         /\ LET it == prog[i] IN
            CASE it = "def" ->
-                  /\ Enter(pc) /\ sym' = pc /\ defd' = TRUE /\ lastLab' = TRUE /\ lastVal' = pc
+                  /\ Enter(pc) /\ sym' = pc /\ orig' = pc /\ defd' = TRUE /\ lastLab' = TRUE /\ lastVal' = pc
                   /\ pc' = pc
              [] it = "ref" ->   \* dc.l L : unknown in pass 1 -> repass
                   /\ repass' = (repass \/ (pass = 1 /\ ~defd)) /\ pc' = pc + 4
-                  /\ UNCHANGED <<sym, defd, lastLab, lastVal, pend>>
+                  /\ UNCHANGED <<sym, defd, lastLab, lastVal, pend, orig>>
              [] it = "fill1" ->
                   /\ pc' = pc + 1 /\ lastLab' = FALSE
-                  /\ UNCHANGED <<sym, defd, lastVal, repass, pend>>
+                  /\ UNCHANGED <<sym, defd, lastVal, repass, pend, orig>>
              [] it = "padinstr" ->
                   /\ LET pad == pc % 2 IN
                      /\ pc' = pc + pad + 2
                      /\ sym' = IF lastLab /\ lastVal = pc /\ pad = 1 THEN pc + 1 ELSE sym
                      /\ lastVal' = IF lastLab /\ lastVal = pc /\ pad = 1 THEN pc + 1 ELSE lastVal
                   /\ lastLab' = FALSE
-                  /\ UNCHANGED <<defd, repass, pend>>
+                  /\ UNCHANGED <<defd, repass, pend, orig>>
         /\ i' = i + 1 /\ UNCHANGED <<prog, pass, phase>>
 
 \* In the fixed algorithm the deferred comparison is resolved at end of pass against the final value
@@ -44,8 +42,8 @@ EndPass == /\ phase = "run" /\ i > Len(prog)
            /\ LET rp == repass IN
               IF rp
               THEN /\ pass' = (IF pass >= 3 THEN 3 ELSE pass + 1) /\ i' = 1 /\ pc' = 0 /\ repass' = FALSE /\ defd' = FALSE
-                   /\ lastLab' = FALSE /\ pend' = FALSE /\ UNCHANGED <<prog, sym, lastVal, phase>>
-              ELSE /\ phase' = "done" /\ UNCHANGED <<prog, pass, i, pc, sym, defd, repass, lastLab, lastVal, pend>>
+                   /\ lastLab' = FALSE /\ pend' = FALSE /\ UNCHANGED <<prog, sym, lastVal, phase, orig>>
+              ELSE /\ phase' = "done" /\ UNCHANGED <<prog, pass, i, pc, sym, defd, repass, lastLab, lastVal, pend, orig>>
 Next == Step \/ EndPass
 Spec == Init /\ [][Next]_vars /\ WF_vars(Next)
 Term == <>(phase = "done")
